@@ -225,6 +225,30 @@ unsafe impl Sync for FixedCapacityMemoryPool {}
 impl FixedCapacityMemoryPool {
     /// Create a new fixed capacity memory pool
     pub fn new(config: FixedCapacityPoolConfig) -> Result<Self> {
+        // Every block starts with a BlockHeader while it is on a free list and blocks are laid
+        // out back to back, so the block size must hold a header and keep every block aligned;
+        // block offsets are stored as u32.
+        if config.alignment < std::mem::align_of::<BlockHeader>() || !config.alignment.is_power_of_two() {
+            return Err(ZiporaError::invalid_data(
+                "alignment must be a power of two and at least the block header alignment",
+            ));
+        }
+        if config.max_block_size < std::mem::size_of::<BlockHeader>()
+            || config.max_block_size % config.alignment != 0
+        {
+            return Err(ZiporaError::invalid_data(
+                "max_block_size must be a multiple of the alignment and large enough for the block header",
+            ));
+        }
+        match config.total_blocks.checked_mul(config.max_block_size) {
+            Some(total) if config.total_blocks > 0 && total <= u32::MAX as usize => {}
+            _ => {
+                return Err(ZiporaError::invalid_data(
+                    "total_blocks * max_block_size must be non-zero and addressable by 32-bit offsets",
+                ));
+            }
+        }
+
         // Generate size classes
         let size_classes = Self::generate_size_classes(config.max_block_size, config.alignment);
         let num_classes = size_classes.len();
